@@ -27,6 +27,53 @@ func init() {
 	}
 }
 
+// countedDrain: rs is `for range S.Size()` (the count is evaluated once, before the first turn) on the indent stack S, and its
+// body pops S exactly once per turn, straight-line (no push, no other pop, no break/continue/return/goto, no nested loop around
+// the pop): the loop pops exactly as many levels as were open when it started — every pop meets a non-empty stack and the
+// stack is empty after the loop.
+func countedDrain(w *World, lx *lexerModel, rs *ast.RangeStmt) bool {
+	info := lx.pkg.TypesInfo
+	if rs.Key != nil && !(isBlankIdent(rs.Key)) || rs.Value != nil {
+		return false
+	}
+	call, ok := unparen(rs.X).(*ast.CallExpr)
+	if !ok {
+		return false
+	}
+	if name, on := methodCallOn(info, call, lx.fIndents); !on || name != "Size" {
+		return false
+	}
+	pops, bad := 0, false
+	for _, st := range rs.Body.List {
+		// the pop must be in a top-level statement of the body (executed on every turn)
+		ast.Inspect(st, func(n ast.Node) bool {
+			switch q := n.(type) {
+			case *ast.FuncLit:
+				return false
+			case *ast.BranchStmt, *ast.ReturnStmt, *ast.ForStmt, *ast.RangeStmt, *ast.IfStmt, *ast.SwitchStmt, *ast.SelectStmt, *ast.TypeSwitchStmt:
+				bad = true
+			case *ast.CallExpr:
+				if name, on := methodCallOn(info, q, lx.fIndents); on {
+					switch name {
+					case "Pop":
+						pops++
+					case "Peek", "Size":
+					default:
+						bad = true
+					}
+				}
+			}
+			return true
+		})
+	}
+	return pops == 1 && !bad
+}
+
+func isBlankIdent(e ast.Expr) bool {
+	id, ok := unparen(e).(*ast.Ident)
+	return ok && id.Name == "_"
+}
+
 func tokenKindOfInsert(info *types.Info, lx *lexerModel, call *ast.CallExpr) string {
 	callee := calleeOf(info, call)
 	if callee == nil || lx.insert == nil || callee != lx.insert.Obj || len(call.Args) != 2 {
@@ -211,6 +258,16 @@ func checkC20(c *Ctx) {
 			}
 			// reviewed: the dedent loop pops only while width < previousIndent, previousIndent being 0 exactly when the stack is
 			// empty and widths being sums of positive constants (C08.R1)
+			drained := false
+			for q := w.parent[call]; q != nil && q != f.Node(); q = w.parent[q] {
+				if rs, ok := q.(*ast.RangeStmt); ok && countedDrain(w, lx, rs) {
+					drained = true
+				}
+			}
+			if drained && name == "Pop" {
+				c.ob("C20.R1", key, w.Pos(call.Pos()), true, "counted drain: `for range S.Size()` evaluates the count once and the body pops exactly once per turn, so every pop meets a non-empty stack")
+				return true
+			}
 			if f == lx.newline && dedentLoopShape(w, lx, call) {
 				c.ob("C20.R1", key, w.Pos(call.Pos()), true, "reviewed: popped only while width < previousIndent; previousIndent is 0 exactly when the stack is empty and widths are non-negative (C08.R1), so the stack is not empty [shape re-checked]")
 				return true
@@ -259,6 +316,34 @@ func checkC20(c *Ctx) {
 	} else {
 		goal := Not{gtAtom(linForm{terms: map[string]int64{kc.key(stackExpr) + ".Size()": 1}}, 0)}
 		ok, how := e.Prove(enq, goal)
+		if !ok {
+			// after a counted drain at the top level of the handler, with no push in between, the stack is empty
+			for _, st := range f.Body.List {
+				if rs, isRange := st.(*ast.RangeStmt); isRange && rs.End() < enq.Pos() && countedDrain(w, lx, rs) {
+					pushed := false
+					ast.Inspect(f.Body, func(n ast.Node) bool {
+						if cl, isCall := n.(*ast.CallExpr); isCall && cl.Pos() > rs.End() && cl.Pos() < enq.Pos() {
+							if name, on := methodCallOn(info, cl, lx.fIndents); on && (name == "Push" || name == "PushAll") {
+								pushed = true
+							}
+						}
+						return true
+					})
+					// the enqueue itself is a top-level statement after the loop (not inside a branch that could skip the loop)
+					topLevel := false
+					for _, st2 := range f.Body.List {
+						if st2.Pos() <= enq.Pos() && enq.End() <= st2.End() {
+							if _, isExpr := st2.(*ast.ExprStmt); isExpr {
+								topLevel = true
+							}
+						}
+					}
+					if !pushed && topLevel {
+						ok, how = true, "after the counted drain `for range S.Size()`, which pops every level that was open"
+					}
+				}
+			}
+		}
 		c.ob("C20.R2", f.Name+"/drained-before-eof", w.Pos(enq.Pos()), ok, map[bool]string{true: "the EOF token is enqueued only when the indent stack is entailed empty (" + how + ")", false: "the EOF token can be enqueued while levels are still open on the indent stack: fewer DEDENT than INDENT tokens would be emitted (" + how + ")"}[ok])
 	}
 	// exactly once per call
